@@ -189,9 +189,11 @@ func (c *conn) receive() (err error) {
 		switch length, index, ok := parseHeader(buffer[:8]); {
 		case length == 0 && index == -1 && !ok:
 			err = core.InvalidResponseError{}
+		case length != n-8:
+			err = core.InvalidResponseError{}
 		default:
 			body := make([]byte, length)
-			copy(body, buffer[8:])
+			copy(body, buffer[8:n])
 			if !ok {
 				if string(body) == core.RequestEntityTooLarge {
 					err = core.ErrRequestEntityTooLarge
